@@ -1,15 +1,20 @@
 #!/bin/bash
 # usage: applyfix.sh <diff> "<commit message>" <pkg>...   — applies a proposed fix to /repo, runs the packages' tests, commits (or reverts)
-set -o pipefail
 export GOFLAGS=-mod=mod GOPROXY=off GOSUMDB=off GOTOOLCHAIN=local
 diff="$1"; msg="$2"; shift 2
 cd /repo || exit 1
 git apply --check "$diff" || { echo "DOES NOT APPLY: $diff"; exit 1; }
 git apply "$diff" || exit 1
 if ! go build ./... ; then echo "BUILD FAILED"; git checkout -- .; exit 1; fi
-if ! go test -vet=off -count=1 -timeout 600s "$@" 2>&1 | grep -E "^(ok|FAIL|---|panic)" ; then echo "no test output?"; fi
-if go test -vet=off -count=1 -timeout 600s "$@" >/dev/null 2>&1; then
+ok=0
+for attempt in 1 2; do
+  go test -vet=off -count=1 -timeout 600s "$@" > /tmp/applyfix.out 2>&1; rc=$?
+  grep -E "^(ok|FAIL|---|panic)" /tmp/applyfix.out
+  if [ $rc -eq 0 ]; then ok=1; break; fi
+  echo "attempt $attempt failed"
+done
+if [ $ok -eq 1 ]; then
   git commit -qam "$msg" && echo "COMMITTED $(git log --format=%h -1) $diff"
 else
-  echo "TESTS FAILED, reverting $diff"; git checkout -- .; exit 1
+  echo "TESTS FAILED, reverting $diff"; grep -B2 -A12 -- "--- FAIL" /tmp/applyfix.out | head -60; git checkout -- .; exit 1
 fi
